@@ -99,7 +99,8 @@ def load_task(task):
             tc = {s: float(np.round(rng.uniform(0.2, 1.0), 3)) for s in samples}
             for r in rows:
                 if opt_cols in (1, 3):
-                    r["tumour_content"] = tc[r["sample_id"]]
+                    # usually one value per sample, but the column is per row: in a third of the tables every row has its own
+                    r["tumour_content"] = tc[r["sample_id"]] if c % 3 else float(np.round(rng.uniform(0.2, 1.0), 3))
                 if opt_cols in (2, 3):
                     r["error_rate"] = 0.005
             annotated = c % 5 in (1, 3)
